@@ -438,10 +438,27 @@ func (c11) Gen(rs uint64, tier string, race bool) interface{} {
 	}
 	switch c.Mode {
 	case "pipeline-reformat":
-		fs := []string{"fasta", "phylip", "nexus", "clustal"}
-		c.Formats = []string{fs[r.Intn(4)]}
+		fs := []string{"fasta", "phylip", "nexus", "clustal", "phylip-strict", "phylip-oneline", "phylip-strict-oneline"}
+		c.Formats = []string{fs[r.Intn(len(fs))]}
 		for k := r.Range(1, 3); k > 0; k-- {
-			c.Formats = append(c.Formats, fs[r.Intn(4)])
+			c.Formats = append(c.Formats, fs[r.Intn(len(fs))])
+		}
+		if r.Chance(0.4) {
+			// files of several buffers (4096 bytes) in every format
+			rows, cols := r.Range(12, 160), r.Range(70, 300) // the names of the first block reach beyond one or two buffers
+			if r.Bool() {
+				c.Formats[len(c.Formats)-1] = r.PickS("phylip-strict", "phylip-strict-oneline", "phylip-strict-oneline") // read back by the step that follows (the last one returns to the first format)
+			}
+			var bn, bs []string
+			for i := 0; i < rows; i++ {
+				b := make([]byte, cols)
+				for k := range b {
+					b[k] = "ACGTACGTACGT-N"[r.Intn(14)]
+				}
+				bn = append(bn, fmt.Sprintf("Seq%04d", i))
+				bs = append(bs, string(b))
+			}
+			c.Files["nt.fa"] = fastaOf(bn, bs)
 		}
 		c.Formats = append(c.Formats, c.Formats[0])
 		c.Key = "pipeline reformat"
@@ -820,8 +837,19 @@ func (c11) Run(ctx *Ctx, ci interface{}) (o Outcome) {
 		o.Sample = map[string]interface{}{"mode": "proc", "args": c.Args, "exit": a.exit, "stdout_bytes": len(a.stdout), "files_written": len(a.files), "threads": []int{1, c.Threads}}
 	case "pipeline-reformat":
 		// write the first format, then walk the chain; the last file must equal the first
-		flag := map[string]string{"fasta": "", "phylip": "-p", "nexus": "-x", "clustal": "-u"}
-		first := c.runCLI(cfgA, strings.Fields("reformat "+c.Formats[0]+" -i nt.fa -o step0"), nil)
+		flag := map[string]string{"fasta": "", "phylip": "-p", "nexus": "-x", "clustal": "-u", "phylip-strict": "-p --input-strict", "phylip-oneline": "-p", "phylip-strict-oneline": "-p --input-strict"}
+		wr := func(f string) string {
+			switch f {
+			case "phylip-strict":
+				return "phylip --output-strict"
+			case "phylip-oneline":
+				return "phylip --one-line"
+			case "phylip-strict-oneline":
+				return "phylip --output-strict --one-line"
+			}
+			return f
+		}
+		first := c.runCLI(cfgA, strings.Fields("reformat "+wr(c.Formats[0])+" -i nt.fa -o step0"), nil)
 		if first.exit != 0 || first.files["step0"] == nil {
 			fail("pipeline-step-failed", "reformat %s failed (exit %d): %s", c.Formats[0], first.exit, clip(first.stderr, 500))
 			return
@@ -832,7 +860,7 @@ func (c11) Run(ctx *Ctx, ci interface{}) (o Outcome) {
 			if k%2 == 1 {
 				cfg = cfgB
 			}
-			args := strings.Fields(fmt.Sprintf("reformat %s -i cur %s -o next", c.Formats[k], flag[c.Formats[k-1]]))
+			args := strings.Fields(fmt.Sprintf("reformat %s -i cur %s -o next", wr(c.Formats[k]), flag[c.Formats[k-1]]))
 			res := c.runCLI(cfg, args, map[string][]byte{"cur": cur})
 			o.Add("cli_executions", 1)
 			if res.exit != 0 || res.files["next"] == nil {
